@@ -24,7 +24,7 @@ CLAIMED = {
              "the documented CIDR-range / prefix / bitwise-mask condition holds, malformed fields never match, and an IPv4 peer gets the "
              "same verdict as a.b.c.d and as ::ffff:a.b.c.d for every rule list; early enforcement rests on regenerated call-order facts "
              "of core.rs; tied by a differential run of the public RulesEngine and the evaluate_connection_rules door against the "
-             "extracted model and an independent documentation oracle; the rules are also exercised at the endpoint's real listener (Core::listen on a loopback port): TLS connections whose client random is read off the wire, and QUIC connections, must be admitted exactly when the documented verdict for (127.0.0.1, that random) is allow",
+             "extracted model and an independent documentation oracle; the rules are also exercised at the endpoint's real listener (Core::listen on a loopback port): TLS connections whose client random is read off the wire, and QUIC connections, must be admitted exactly when the documented verdict for (127.0.0.1, that random) is allow; the real binary started on a rules file written as text applies the same verdicts to real connections; composite theorem denied_connection_is_never_answered over Model/FrontDoor.v",
         note="trusted: Coq kernel, Model/Rules.v, translator facts (RulesFacts.v), extraction + driver, harness; IpNet/hex parsing is library "
              "code covered by the text-rendering diff; TLS/QUIC accept I/O not driven",
         design="DESIGN.md 5 C04"),
@@ -66,7 +66,7 @@ CLAIMED["C05"] = dict(
          "permitted (and, on the tunnel channel, enabled), HTTP/1.1 only without ALPN'; exact names designate their own entry under the "
          "uniqueness validate enforces; unknown/no SNI and HTTP/3 on TCP are refused; reload switches only on success (regenerated "
          "facts of core.rs); tied by a differential run of the real TlsDemux (settings + certificate files) and of "
-         "Core::reload_tls_hosts_settings histories against the extracted model and an independent oracle; one known finding; one real TLS handshake per query against the real listener: accepted or refused, and the ALPN protocol announced, as the demultiplexer's documented choice says (HTTP/3 never on TCP)",
+         "Core::reload_tls_hosts_settings histories against the extracted model and an independent oracle; one known finding; one real TLS handshake per query against the real listener: accepted or refused, and the ALPN protocol announced, as the demultiplexer's documented choice says (HTTP/3 never on TCP); composite theorem served_connection_is_the_selection over Model/FrontDoor.v (rules, demultiplexer, no HTTP/3 on TCP, in the code's order)",
     note="trusted: Coq kernel, Model/TlsDemux.v, Spec/SniRouting.v, translator facts (DemuxFacts.v), extraction + driver, harness doors "
          "verif::demux; RwLock linearisation and certificate loading are environment; QUIC double select not driven",
     design="DESIGN.md 5 C05")
@@ -77,7 +77,7 @@ CLAIMED["C13"] = dict(
          "injectivity), start is refused iff one of the four documented conditions holds, duplicate/absent hosts are refused; the "
          "shapes of the Rust functions are regenerated facts. The lexical TOML forms are library code: they are covered by a "
          "differential run of the real toml::from_str::<Settings> + RegistryBasedAuthenticator + client_config against Python's "
-         "tomllib (independent reader) and by a wizard-writer -> endpoint-reader -> exported-config round trip",
+         "tomllib (independent reader) and by a wizard-writer -> endpoint-reader -> exported-config round trip; the real binary (endpoint/src/main.rs as a process) started on credentials files in varied TOML spellings accepts exactly the configured pair",
     note="partial by nature: toml_edit is not modelled, the weight for escapes/quotes/whitespace rests on the correspondence run; trusted: Coq "
          "kernel, Model/Settings.v, Lib/Base64.v, translator facts, tomllib, extraction + driver, harness engines",
     design="DESIGN.md 5 C13")
@@ -223,7 +223,7 @@ CLAIMED["C19"] = dict(
          "was started and every participant holding a guard has finished (never earlier, nothing more needed); a participant is awaited "
          "iff it registered before completion began. Tied by translator facts (channel construction, submit/completion/guard/wait shapes, "
          "every listener/tunnel/handler registers both halves under one lock and winds down gracefully) and by scripted interleavings on "
-         "the real Shutdown with the coordinator holding the lock as main.rs does; the real endpoint with live sessions of every transport (HTTP/1.1 tunnel, HTTP/2 stream, HTTP/3 stream, idle connections): submission, goodbye seen by each client (close, GOAWAY, QUIC close), completion after the last; theorem notified_session_says_goodbye for the race between the listener and a QUIC session",
+         "the real Shutdown with the coordinator holding the lock as main.rs does; the real endpoint with live sessions of every transport (HTTP/1.1 tunnel, HTTP/2 stream, HTTP/3 stream, idle connections): submission, goodbye seen by each client (close, GOAWAY, QUIC close), completion after the last; theorem notified_session_says_goodbye for the race between the listener and a QUIC session; the real binary as a process: SIGINT with live sessions of every transport, goodbye seen by each client, exit code 0 only after the last session (theorem process_exits_only_after_the_last_participant, fact MAIN_AWAITS_COMPLETION)",
     note="partial: the codecs' graceful wind-down effects (GOAWAY, QUIC close) are structural facts only; known finding "
          "completion-awaited-under-the-lock; trusted: Coq kernel, Model/ShutdownM.v, translator facts, tokio channels, extraction + "
          "driver, harness door verif::shutdown",
@@ -237,7 +237,7 @@ CLAIMED["C20"] = dict(
          "error-text site in lib/src printing a request uses scrub_request is a regenerated scan of all macro invocations; the tie to "
          "behaviour is the trace-level log capture of tunnel sessions (HTTP/1.1, HTTP/2, all authenticator and SNI configurations, "
          "accepted / rejected / malformed credentials, every request kind) and of the service channels with unique canaries in every "
-         "secret-bearing field, searched verbatim, as base64 token and decoded; plus the scrub functions against the model",
+         "secret-bearing field, searched verbatim, as base64 token and decoded; plus the scrub functions against the model; the real binary's own trace-level log on stdout is searched for the configured and rejected passwords and their Basic tokens",
     note="partial: proves the scrubbing functions and checks their use structurally; the absence of leaks over all executions is "
          "exercised, not proved; TLS-layer log lines before the session door and QUIC are covered by facts only; trusted: Coq kernel, "
          "Model/Scrub.v, the macro scan, extraction + driver, the capture logger, doors verif::session / verif::scrub",
